@@ -11,11 +11,14 @@ MapSeq(ixs, F(_)) == [j \in 1..Len(ixs) |-> F(ixs[j])]
 Lens4 == <<<<>>, <<1>>, Fill(1, 255), Fill(2, 256)>>
 Lens3 == <<<<>>, <<9>>, Fill(3, 255)>>
 Big == Fill(5, 65535)
+RepZero(n) == [j \in 1..n |-> 0]
 
 DhVals == MapSeq(SetToSeq({<<a, b, c>> : a \in 1..4, b \in 1..4, c \in 1..4}),
                  LAMBDA ix : [p |-> Lens4[ix[1]], g |-> Lens4[ix[2]], ys |-> Lens4[ix[3]]])
-          \o << [p |-> Big, g |-> <<2>>, ys |-> <<>>], [p |-> <<>>, g |-> <<>>, ys |-> Big], [p |-> Big, g |-> Big, ys |-> Big] >>
-PointVals == [k \in 1..3 |-> [point |-> Lens3[k]]]
+          \o << [p |-> Big, g |-> <<2>>, ys |-> <<>>], [p |-> <<>>, g |-> <<>>, ys |-> Big], [p |-> Big, g |-> Big, ys |-> Big],
+                [p |-> <<0>>, g |-> <<0>>, ys |-> <<0>>], [p |-> <<0, 0, 0>>, g |-> <<>>, ys |-> <<0, 1>>], [p |-> RepZero(300), g |-> <<255>>, ys |-> <<>>] >>
+          \o [k \in 1..12 |-> [p |-> Fill(k, 256 * <<1, 2, 3, 4, 7, 8, 16, 32, 64, 100, 128, 200>>[k] + (k % 2)), g |-> <<2>>, ys |-> <<k>>]]
+PointVals == [k \in 1..3 |-> [point |-> Lens3[k]]] \o << [point |-> <<0>>], [point |-> <<0, 0, 0, 0>>] >>
 Named(g) == [ct |-> 3, content |-> [t |-> "NamedGroup", g |-> g]]
 Expl(k) == [ct |-> 1, content |-> [t |-> "ExplicitPrime", p |-> Lens3[k], a |-> Lens3[(k % 3) + 1], b |-> Lens3[((k + 1) % 3) + 1],
                                     base |-> Lens3[k], order |-> Lens3[(k % 3) + 1], cofactor |-> Lens3[((k + 1) % 3) + 1]]]
@@ -50,7 +53,7 @@ CurveTypeCases ==
   \o [ct1 \in 1..256 |-> Mk("curvetype", "parse_ecdh_params", "", 0, <<ct1 - 1, 0, 0, 0, 0, 0, 0, 0, 0, 0, 0>>, <<>>, 0)]
 
 (* content + signature under both values of the negotiation flag *)
-SubVals(sub) == IF sub = "dh" THEN SubSeq(DhVals, 1, 6) ELSE IF sub = "ecdh" THEN SubSeq(EcdhVals, 1, 9) ELSE EcVals
+SubVals(sub) == IF sub = "dh" THEN SubSeq(DhVals, 1, 6) \o SubSeq(DhVals, 68, Len(DhVals)) ELSE IF sub = "ecdh" THEN SubSeq(EcdhVals, 1, 9) ELSE EcVals
 SubEnc(sub, v) == IF sub = "dh" THEN EncDhParams(v) ELSE IF sub = "ecdh" THEN EncEcdhParams(v) ELSE EncEcParameters(v)
 Subs == <<"dh", "ecdh", "ec">>
 CasCases ==
